@@ -15,6 +15,8 @@ from props.pops import Ctx, _start
 RULE = (
     "acknowledged transfers; at a tape-chosen point (after the n-th call, or at the first emission of EOF / NAK / "
     "Finished / ACK, cutting before or after that PDU) direction a>b, b>a or both go silent, permanently or healing "
+    "after a tape-chosen time; in 3 of 7 runs the user of either side additionally issues a cancel request at a "
+    "tape-chosen call (the cancel exchange then meets the silent peer); heal "
     "after a tape-chosen time (fractions and multiples of the timer intervals); limits N 1..4 and intervals drawn per "
     "run; default fault handlers; history shell; RetryModel judged at every call; non-trivial = at least one "
     "expiry of a retry procedure was observed; distinct = interleaving signature"
@@ -317,6 +319,14 @@ def run_one(t):
         mon = RetryMonitor(w)
         trig = SilenceTrigger(w, t)
         w.monitors.extend([trig, mon])
+        # optionally a user cancel request (either side) at a tape-chosen call, before or after the cut: the
+        # EOF (cancel) / Finished (cancel) exchange then has to cope with the silent peer on its own
+        csel = t.weighted([4, 2, 1], "user cancel")
+        cafter = 1 + t.choose(30, "user cancel after call")
+        if csel:
+            from props.pops import CancelTrigger
+
+            w.monitors.append(CancelTrigger(ctx, [(cafter, csel - 1, False)]))
         # a few ordinary link faults before the silence create lost segments (NAK procedure)
         if t.choose(2, "pre faults"):
             w.link.enabled = {"drop"}
